@@ -26,12 +26,13 @@ import (
 	ds "github.com/ipfs/go-datastore"
 	dssync "github.com/ipfs/go-datastore/sync"
 	ipld "github.com/ipfs/go-ipld-format"
+	mh "github.com/multiformats/go-multihash"
 )
 
 // ---------------------------------------------------------------------------
 // alphabet
 
-var dirPaths = []string{"/a", "/b", "/a/x", "/b/x"}  // same basename x in different parents
+var dirPaths = []string{"/a", "/b", "/a/x", "/b/x"} // same basename x in different parents
 var filePaths = []string{"/f", "/a/f", "/a/x/f", "/b/x/f"}
 var allPaths = append(append([]string{}, dirPaths...), filePaths...)
 
@@ -48,6 +49,8 @@ const (
 // call orders on one write descriptor (w Write, t Truncate, f Flush; Close at the end)
 var fdScripts = []string{"wft", "ft", "tfw"}
 var fdScriptsThorough = []string{"fw", "wfw", "tft", "fwt"}
+
+var v1Builder = cid.V1Builder{Codec: cid.DagProtobuf, MhType: mh.SHA2_256}
 
 var theRun *eng.Run
 var thorough bool
@@ -203,6 +206,9 @@ type sys struct {
 	mvSrc    string   // source path of the last Mv
 	sawHAMT  bool
 	obsEach  bool
+	cidv1    bool
+	pf       mfs.PubFunc
+	opts     []mfs.Option
 }
 
 func newSys(cfg string) eng.Sys {
@@ -210,6 +216,7 @@ func newSys(cfg string) eng.Sys {
 	s.pub = strings.Contains(cfg, "pub=1")
 	s.hamt = strings.Contains(cfg, "hamt=1")
 	s.obsEach = strings.Contains(cfg, "obs=each")
+	s.cidv1 = strings.Contains(cfg, "cid=1")
 	s.ctx, s.cancel = context.WithCancel(context.Background())
 	db := dssync.MutexWrap(ds.NewMapDatastore())
 	bs := bstore.NewBlockstore(db)
@@ -229,6 +236,11 @@ func newSys(cfg string) eng.Sys {
 		// to a basic directory when it shrinks to 2
 		opts = append(opts, mfs.WithMaxLinks(2), mfs.WithMaxHAMTFanout(8))
 	}
+	if s.cidv1 {
+		// a CIDv1 MFS: files get raw leaves, a one-block file is a bare raw block
+		opts = append(opts, mfs.WithCidBuilder(v1Builder))
+	}
+	s.pf, s.opts = pf, opts
 	rt, err := mfs.NewEmptyRoot(s.ctx, s.dserv, pf, nil, opts...)
 	if err != nil {
 		panic(err)
@@ -246,9 +258,9 @@ func newSys(cfg string) eng.Sys {
 }
 
 // populate builds the initial tree of the "init=pop" configurations through
-// the real API (and the model): /a/{x/{f},f} /b/{x/} /f  - the root has three
+// the real API (and the model): /a/{x/{f},f="xy" written through a descriptor} /b/{x/} /f  - the root has three
 // entries, so with MaxLinks=2 it already is a HAMT directory.
-var populate = []string{"MkdirP /a/x", "MkdirP /b/x", "Create /a/x/f", "Create /a/f", "CreateRaw /f"}
+var populate = []string{"MkdirP /a/x", "MkdirP /b/x", "Create /a/x/f", "Create /a/f", "Write /a/f", "CreateRaw /f"}
 
 func (s *sys) Close() {
 	if s.rt != nil {
@@ -302,8 +314,9 @@ func (s *sys) Ops() []string {
 			for _, sc := range fdScripts {
 				ops = append(ops, "Fd "+p+" "+sc)
 			}
+			ops = append(ops, "WriteNS "+p, "TruncNS "+p)
 			if thorough {
-				ops = append(ops, "WriteNS "+p)
+				ops = append(ops, "AppendNS "+p, "FdNS "+p+" wft", "FdNS "+p+" tfw")
 				for _, sc := range fdScriptsThorough {
 					ops = append(ops, "Fd "+p+" "+sc)
 				}
@@ -324,7 +337,7 @@ func (s *sys) Ops() []string {
 			ops = append(ops, "Chmod2 "+p, "Touch2 "+p)
 		}
 	}
-	ops = append(ops, "FlushRoot")
+	ops = append(ops, "FlushRoot", "Reopen")
 	for _, p := range pres {
 		ops = append(ops, "Lookup "+p)
 	}
@@ -367,7 +380,7 @@ func expectClass(op string, wantOK bool, err error, feat []string) *eng.Violatio
 }
 
 func (s *sys) cfgFeat() []string {
-	return []string{"pubfunc", map[bool]string{true: "set", false: "nil"}[s.pub], "hamt", fmt.Sprint(s.hamt)}
+	return []string{"pubfunc", map[bool]string{true: "set", false: "nil"}[s.pub], "hamt", fmt.Sprint(s.hamt), "cidv1", fmt.Sprint(s.cidv1)}
 }
 
 // Do runs one operation; a panic inside the code under test becomes a
@@ -492,6 +505,9 @@ func (s *sys) do(op string) (string, *eng.Violation) {
 			data = "hello"
 			nd = dag.NodeWithData(ft.FilePBData([]byte(data), uint64(len(data))))
 		}
+		if pn, ok := nd.(*dag.ProtoNode); ok && s.cidv1 {
+			pn.SetCidBuilder(v1Builder) // what `files write --create` does on a CIDv1 MFS
+		}
 		s.lastFeat = append(s.lastFeat, "target", kindOf(s.model.get(p)), "parent", kindOf(par))
 		err := mfs.PutNode(s.rt, p, nd)
 		if v := expectClass(op, wantOK, err, s.lastFeat); v != nil {
@@ -502,7 +518,7 @@ func (s *sys) do(op string) (string, *eng.Violation) {
 		}
 		return cls(err), nil
 
-	case "Write", "WriteNS", "Trunc", "Append", "Fd":
+	case "Write", "WriteNS", "Trunc", "TruncNS", "Append", "AppendNS", "Fd", "FdNS":
 		p := f[1]
 		m := s.model.get(p)
 		s.lastFeat = append(s.lastFeat, "target", kindOf(m))
@@ -532,7 +548,7 @@ func (s *sys) do(op string) (string, *eng.Violation) {
 				}
 			}
 		}
-		fd, err := fi.Open(s.ctx, mfs.Flags{Write: true, Sync: f[0] != "WriteNS"})
+		fd, err := fi.Open(s.ctx, mfs.Flags{Write: true, Sync: !strings.HasSuffix(f[0], "NS")})
 		if err != nil {
 			return "err", expectClass("Open "+p, true, err, s.lastFeat)
 		}
@@ -540,8 +556,11 @@ func (s *sys) do(op string) (string, *eng.Violation) {
 		// at the current offset, a = seek to the end + Write("z"), t =
 		// Truncate(1), f = Flush; Close at the end.  Fd scripts never write
 		// after a truncate that follows a write, so every offset is unambiguous.
-		script := map[string]string{"Write": "w", "WriteNS": "w", "Append": "a", "Trunc": "t"}[f[0]]
-		if f[0] == "Fd" {
+		// the ...NS twins close the descriptor without Sync (`files write --flush=false`):
+		// the new content is only in the File object until the parent syncs its cache
+		s.lastFeat = append(s.lastFeat, "sync", fmt.Sprint(!strings.HasSuffix(f[0], "NS")))
+		script := map[string]string{"Write": "w", "WriteNS": "w", "Append": "a", "AppendNS": "a", "Trunc": "t", "TruncNS": "t"}[f[0]]
+		if f[0] == "Fd" || f[0] == "FdNS" {
 			script = f[2]
 			s.lastFeat = append(s.lastFeat, "script", script)
 			theRun.Add("fd_script_"+script, 1)
@@ -680,6 +699,33 @@ func (s *sys) do(op string) (string, *eng.Violation) {
 			}
 		}
 		return cls(err), nil
+
+	case "Reopen":
+		// flush, close the root and open a new Root from the flushed root node
+		// on the same DAG service: every MFS object is re-created lazily from
+		// the DAG.  The tree must be the same.
+		if err := s.rt.GetDirectory().Flush(); err != nil {
+			return "err", expectClass("Flush before "+op, true, err, s.lastFeat)
+		}
+		nd, err := s.rt.GetDirectory().GetNode()
+		if err != nil {
+			return "err", expectClass("GetNode before "+op, true, err, s.lastFeat)
+		}
+		pn, ok := nd.(*dag.ProtoNode)
+		if !ok {
+			return "err", eng.V("root-not-protonode", "", fmt.Sprintf("root node is %T", nd), s.lastFeat...)
+		}
+		if err := s.rt.Close(); err != nil {
+			return "err", expectClass("Close before "+op, true, err, s.lastFeat)
+		}
+		s.rt = nil
+		rt, err := mfs.NewRoot(s.ctx, s.dserv, pn, s.pf, nil, s.opts...)
+		if err != nil {
+			return "err", expectClass("NewRoot", true, err, s.lastFeat)
+		}
+		s.rt = rt
+		theRun.Add("reopens", 1)
+		return "ok", nil
 
 	case "FlushRoot":
 		err := s.rt.GetDirectory().Flush()
@@ -1041,6 +1087,9 @@ func (s *sys) persistCheck(want map[string]*mnode) *eng.Violation {
 // in this configuration the live-view observers run after every operation
 const obsCfg = "pub=1,hamt=0,obs=each"
 
+// a CIDv1 MFS (raw leaves; one-block files are bare raw blocks in their directory)
+const v1Cfg = "pub=1,hamt=0,cid=1"
+
 var baseCfgs = []string{"pub=1,hamt=0", "pub=1,hamt=1", "pub=0,hamt=0", "pub=0,hamt=1"}
 
 // two searches: from the empty root, and (shallower) from a populated tree
@@ -1053,14 +1102,14 @@ func specs(r *eng.Run) []eng.SeqSpec {
 	}
 	if !thorough {
 		return []eng.SeqSpec{
-			{Configs: append(append([]string{}, baseCfgs...), obsCfg), New: newSys, Depth: 3},
-			{Configs: []string{pop[1], pop[2], obsCfg + ",init=pop"}, New: newSys, Depth: 2},
+			{Configs: append(append([]string{}, baseCfgs...), obsCfg, v1Cfg), New: newSys, Depth: 3},
+			{Configs: []string{pop[1], pop[2], obsCfg + ",init=pop", v1Cfg + ",init=pop"}, New: newSys, Depth: 2},
 		}
 	}
 	return []eng.SeqSpec{
-		{Configs: baseCfgs, New: newSys, Depth: 4},
+		{Configs: append(append([]string{}, baseCfgs...), v1Cfg), New: newSys, Depth: 4},
 		{Configs: []string{obsCfg}, New: newSys, Depth: 3},
-		{Configs: []string{pop[0], pop[2], pop[3], obsCfg + ",init=pop"}, New: newSys, Depth: 2},
+		{Configs: []string{pop[0], pop[2], pop[3], obsCfg + ",init=pop", v1Cfg + ",init=pop"}, New: newSys, Depth: 2},
 		{Configs: []string{pop[1]}, New: newSys, Depth: 3},
 	}
 }
